@@ -81,6 +81,9 @@ func (v *validator) stmt(n Node, c ctx, pending []string) {
 			v.ok = false
 		}
 		v.expr(x.Left, c)
+		if x.Init != nil {
+			v.expr(x.Init, c)
+		}
 		v.expr(x.Obj, c)
 		loop(x.Body)
 	case *While:
